@@ -45,8 +45,9 @@ func checkNoCache(c *sim.Case, r *sim.Resp, what string) {
 		return
 	}
 	cc, pr := r.Get("cache-control"), r.Get("pragma")
-	if len(cc) == 0 || !strings.Contains(strings.ToLower(strings.Join(cc, ",")), "no-cache") ||
-		len(pr) == 0 || !strings.Contains(strings.ToLower(strings.Join(pr, ",")), "no-cache") {
+	// a directive that forbids re-use of the answer, in either header that can carry one
+	ccs, prs := strings.ToLower(strings.Join(cc, ",")), strings.ToLower(strings.Join(pr, ","))
+	if !(strings.Contains(ccs, "no-cache") || strings.Contains(ccs, "no-store") || strings.Contains(prs, "no-cache")) {
 		c.Violation("redirect-without-no-cache:"+what, "%s carries Location %q but cache-control=%v pragma=%v", what, r.Location(), cc, pr)
 	}
 }
